@@ -3,6 +3,7 @@ import PharmpyProofs.C05.OrderLemmas
 import PharmpyProofs.C05.DictLemmas
 import PharmpyProofs.C05.RelabelLemmas
 import PharmpyProofs.C05.SubsLemmas
+import PharmpyProofs.C05.CollectLemmas
 /-
   C05 helper lemmas that sit directly under the property theorems.
 -/
